@@ -46,6 +46,10 @@ type ReaderScript struct {
 	// which the io.Reader contract allows.
 	Poll  int `json:"poll,omitempty"`
 	Piece int `json:"piece,omitempty"`
+	// Multi (parser-level ReadFrom only): the data comes through an
+	// io.MultiReader of standard readers instead (events, Poll and Piece are
+	// not used); see multiReader.
+	Multi []MultiPart `json:"multi,omitempty"`
 }
 
 type scriptReader struct {
